@@ -156,10 +156,10 @@ def check(tier):
     run.skip_key = ['t', 'md', 'md2', 'via', 'kw', 'cls', 'pos', 'kind', 'pat', 'cont', 'nested', 'ev']
     res = core.tlc("mc/MC_C03.tla", "mc/MC_C03.cfg", workers=4, coverage=True, timeout=600)
     core.check_coverage(res)
-    run.add_tlc(res, "Tagging exhaustive: 4 defaults x 3 keywords x 4 classes x 5 positions x 5 kinds, + 168 automatic-tagging points")
+    run.add_tlc(res, "Tagging exhaustive: 4 defaults x 3 keywords x 4 classes x 5 positions x 5 kinds, + 192 automatic-tagging points")
     cases = res.printed("CASE")
-    if len([c for c in cases if c["t"] == "tag"]) != 960 or len([c for c in cases if c["t"] == "auto"]) != 168 or len([c for c in cases if c["t"] == "xtag"]) != 108:
-        raise ToolError(f"expected 960 legal tag points, 168 automatic-tagging points and 108 cross-module points, model gave {len(cases)}")
+    if len([c for c in cases if c["t"] == "tag"]) != 960 or len([c for c in cases if c["t"] == "auto"]) != 192 or len([c for c in cases if c["t"] == "xtag"]) != 108:
+        raise ToolError(f"expected 960 legal tag points, 192 automatic-tagging points and 108 cross-module points, model gave {len(cases)}")
     run.cov["cross_module_points"] = 108
     # each listed deviation must be refuted by the model's invariants (non-vacuity): the
     # deviation models live in MC_C03_dev.tla
@@ -181,7 +181,7 @@ def check(tier):
     run.cov["rule"] = ("TLC enumerates the full product module default {EXPLICIT, IMPLICIT, AUTOMATIC, none} x keyword x class x "
                        "position {assignment, component, alternative, nested component, SEQUENCE OF element} x kind {primitive, "
                        "referenced SEQUENCE, referenced CHOICE, inline CHOICE, open type}: 960 legal points (240 illegal "
-                       "IMPLICIT-on-CHOICE points excluded by 31.2.9) + 168 automatic-tagging points; non-trivial = compiled Ok; "
+                       "IMPLICIT-on-CHOICE points excluded by 31.2.9) + 192 automatic-tagging points; non-trivial = compiled Ok; "
                        "distinct by (ASN.1 text, module default)")
     step = max(1, len(events) // 6)
     run.cov["samples"] = [{"asn": e["asn"], "module_default": e["md"], "observed": e.get("obs"), "status": e["status"]}
